@@ -152,14 +152,10 @@ def simd():
 
 
 def scalar():
-    """the scalar cores of the word generators, translated to Lean definitions (tools/extract_scalar.py)"""
-    import extract_scalar, extract_simd
-    try:
-        extract_scalar.generate(REPO, OUT, write_if_changed)
-    except (extract_simd.TranslateError, KeyError, IndexError, ValueError, StopIteration) as e:
-        msg = ("%s: %s" % (type(e).__name__, e)).replace("-/", "- /")
-        write_if_changed(os.path.join(OUT, "Scalar.lean"), "/- tools/extract_scalar.py could not translate the current source: %s -/\n"
-                         "namespace Urandom.Generated.Scalar\ndef translation_failed : Nat := translation_of_the_current_source_failed\nend Urandom.Generated.Scalar\n" % msg)
+    """the scalar cores of the word generators, Float01's packing and the integer sampler, translated to Lean definitions (tools/extract_scalar.py;
+    a source it cannot read yields a file that does not build - per group of sources)"""
+    import extract_scalar
+    extract_scalar.generate(REPO, OUT, write_if_changed)
 
 
 def main():
